@@ -155,6 +155,10 @@ def group_pred(gi, P, Q, R, m, n, scales):
         "mul-additive": _peq(out(M.multiply(lp, m + n)), out(M.add(M.multiply(lp, m), M.multiply(lp, n)))),
         "mul-multiplicative": _peq(out(M.multiply(M.multiply(lp, m), n)), out(M.multiply(lp, m * n))),
         "small-n": all(_peq(out(M.multiply(lp, k)), O.aff_mul(P, k)) for k in (0, 1, 2, 3)),
+        # the library's OWN comparison between neg(P) and a freshly (canonically) constructed -P, and their sum: a negation
+        # that leaves a non-canonical zero coefficient (p instead of 0) is invisible after reduction but breaks eq / add dispatch
+        "neg-eq-canonical": bool(M.eq(M.neg(lp), _pt_to_lib(g, C, O.aff_neg(P), s1))) and _peq(out(M.neg(lp)), O.aff_neg(P)),
+        "neg+canonical-neg": _peq(out(M.add(M.neg(lp), _pt_to_lib(g, C, O.aff_neg(P), s2))), O.aff_add(O.aff_neg(P), O.aff_neg(P))),
     }
     bad = [k for k, v in chk.items() if not v]
     return (not bad, f"{g.name()}: group law fails {bad} at P={P} Q={Q} R={R} m={m} n={n}")
@@ -256,6 +260,14 @@ def predicates(rng, tier, only=None):
             k = rng.choice([3, g.order - 1, g.order + 1, rng.randrange(1 << 300)]) if big else rng.randrange(2, 9)
             sc = tuple((rand_scale(rng, g.b) if g.grp != "G12" else g.b.like(rng.randrange(1, 99))) for _ in range(3))
             ps.append(Pred("group-laws", group_pred, (gi, P, Q, R, m, k, sc)))
+        if g.opt and g.grp != "G12":
+            # RELATED projective representatives: all three operands over ONE shared non-unit denominator (co-Z, which add() itself
+            # produces for P+Q and P-Q), and a normalised operand next to a scaled one
+            s_ = rand_scale(rng, g.b)
+            one_ = g.b.like(1)
+            P, Q, R = rng.choice(pts), rng.choice(pts), rng.choice(pts)
+            for sc2 in ((s_, s_, s_), (s_, one_, s_), (one_, s_, one_)):
+                ps.append(Pred("group-laws", group_pred, (gi, P, Q, R, 2, 3, sc2)))
         if g.grp == "G2":
             # two points of the twist curve whose x-coordinates differ by an element of the BASE field (and a point whose y lies in
             # the base field): the slope denominators x2 - x1 / 2y are then base-field-valued extension elements
